@@ -85,7 +85,7 @@ def rename(stmt, mapping):
         if isinstance(x, ir.Star):
             return ir.Star(g(x.qual))
         if isinstance(x, ir.With):
-            return ir.With(tuple((g(n), q) for n, q in x.ctes), x.body)
+            return ir.With(tuple((g(n), q) for n, q in x.ctes), x.body, x.recursive)
         if isinstance(x, ir.CteInsert):
             return ir.CteInsert(tuple((g(n), q) for n, q in x.ctes), x.ins)
         return x
@@ -119,7 +119,7 @@ def toggle_table_aliases(stmt, picks):
 
     def sel(q):
         if isinstance(q, ir.With):
-            return ir.With(tuple((n, sel(c)) for n, c in q.ctes), sel(q.body))
+            return ir.With(tuple((n, sel(c)) for n, c in q.ctes), sel(q.body), q.recursive)
         if isinstance(q, ir.SetOp):
             return ir.SetOp(q.ops, tuple(sel(b) for b in q.branches))
         groups = []
@@ -518,6 +518,13 @@ def crafted_statements():
                                                                         S((I(C("c", "x")),), (G(T(None, "t3", "c", True), (J("JOIN", T(None, "t1", "d", True), on("c", "d", "k")),)),))))))
     out.append(ir.CreateView(tgt, None, S((I(C("a", "x")), I(C("b", "x"), "y"), I(C("c", "x"), "z")), (G(D(base("t1"), "a", True)), G(D(base("t2"), "b", True)), G(D(S((I(C("d", "x")),), (G(D(S((I(C("e", "x")),), (G(D(base("t3"), "e", True)),)), "d", True)),)), "c", True)))), "CREATE VIEW", False))
     out.append(ir.Insert(tgt, None, S((I(C("a", "x")), I(C("b", "y"))), (G(T(None, "t1", "a", True), (J("JOIN", T("s1", "t2", "b", True), on("a", "b", "k")),)),), ir.Exists(S((I(C("c", "k")),), (G(T(None, "t1", "c", True), (J("JOIN", T(None, "t3", "d", True), on("c", "d", "k")),)),))))))
+    # recursive CTEs: the body reads its own name (JOIN form, comma form with an alias); renaming the CTE must not turn the self-reference into a table
+    rec1 = ir.SetOp(("UNION ALL",), (S((I(C(None, "x")), I(C(None, "k"))), (G(T(None, "t1")),)),
+                                    S((I(C("tr", "x")), I(C("tr", "k"))), (G(T(None, "t2", "tr", False), (J("JOIN", ir.CteRef("q1"), ("on", ir.Cmp(C("tr", "k"), "=", C("q1", "x")))),)),))))
+    out.append(ir.Insert(tgt, None, ir.With((("q1", rec1),), S((I(C("q1", "x")),), (G(ir.CteRef("q1")),)), True)))
+    rec2 = ir.SetOp(("UNION ALL",), (S((I(C(None, "x")), I(C(None, "k"))), (G(T("s1", "t1")),)),
+                                    S((I(C("tr", "x")), I(C("r", "k"))), (G(T(None, "t2", "tr", True)), G(ir.CteRef("q1", "r", True))), ir.Cmp(C("tr", "k"), "=", C("r", "x")))))
+    out.append(ir.CreateView(tgt, None, ir.With((("q0", base("t3")), ("q1", rec2)), S((I(C("z", "x")), I(C("q0", "x"), "y")), (G(ir.CteRef("q1", "z", True), (J("JOIN", ir.CteRef("q0"), on("z", "q0")),)),)), True), "CREATE VIEW", False))
     return out
 
 
